@@ -586,6 +586,41 @@ func genVsReenc(r *Rng, n int, w *bufio.Writer) {
 	}
 }
 
+// generator "vhashend" (corpus): p2wpkh / p2sh-p2wpkh / p2pkh whose key hash ends in 0xae, 0xac, 0x87,
+// documented by the previous transaction, the witness utxo or both; honest, or re-signed with the other algorithm
+func genVsHashEnd(r *Rng, n int, w *bufio.Writer) {
+	defer func() { vsForceNin, vsForceTpl, vsForceHashEnd = 0, -1, 0 }()
+	count := 0
+	for tries := 0; tries < 50*n && count < n; tries++ {
+		vsKeyLog = nil
+		vsForceNin = 1
+		vsForceTpl = []int{tplP2WPKH, tplP2SHP2WPKH, tplP2WPKH, tplP2PKH}[count%4]
+		vsForceHashEnd = []byte{0xae, 0xae, 0xac, 0x87}[(count/4)%4]
+		c, spends := genHonest(r)
+		in, sp := c.ins[0], spends[0]
+		wantNonwit := (count/2)%2 == 0
+		if sp.algo == 1 && wantNonwit != (in.nonwit != nil) {
+			continue
+		}
+		if count%2 == 0 {
+			// the signature is made with the other algorithm over the script the validator classifies
+			script := sp.spk
+			if in.redeem != nil {
+				script = in.redeem
+			}
+			ht := in.sigs[0].sig[len(in.sigs[0].sig)-1]
+			if sp.algo == 1 {
+				c.resign(0, 0, sp.keys[0], 0, script, nil, ht)
+			} else {
+				c.resign(0, 0, sp.keys[0], 1, script, sp.amount, ht)
+			}
+		}
+		c.attachPrivs()
+		fmt.Fprintln(w, c.line())
+		count++
+	}
+}
+
 func runVs(t *Toks) string {
 	c := readVs(t)
 	if c.ver == 2 {
@@ -718,6 +753,22 @@ func genSpend(r *Rng, tpl int) *vsSpend {
 	var pubs [][]byte
 	for i := 0; i < nk; i++ {
 		k := genKey(r)
+		// key-hash templates: sometimes a key whose HASH160 ends in an opcode byte that a script
+		// classifier might look at (OP_CHECKMULTISIG, OP_CHECKSIG, OP_EQUAL), so that the spent
+		// script / witness program ends in that byte
+		if (tpl == tplP2PKH || tpl == tplP2WPKH || tpl == tplP2SHP2WPKH) && (r.Chance(25) || vsForceHashEnd != 0) {
+			want := byte(r.Pick(0xae, 0xae, 0xac, 0x87))
+			if vsForceHashEnd != 0 {
+				want = vsForceHashEnd
+			}
+			for tries := 0; tries < 20000; tries++ {
+				h := payment.Hash160(k.pub)
+				if h[19] == want {
+					break
+				}
+				k = genKey(r)
+			}
+		}
 		if (multi || tpl == tplP2PK || tpl == tplP2PKH) && r.Chance(15) {
 			k.pub = k.priv.PubKey().SerializeUncompressed()
 		}
@@ -796,6 +847,9 @@ var vsHashTypes = []byte{1, 1, 1, 2, 3, 0x81, 0x82, 0x83, 0x41, 0x43, 0xc1, 0xc2
 // utxoForm: 0 = non-witness only, 1 = witness only, 2 = both.
 // vsForceNin / vsForceTpl pin the number of inputs / the template (corpus generators only)
 var vsForceNin, vsForceTpl = 0, -1
+
+// vsForceHashEnd pins the last byte of the key hash of key-hash templates (corpus generators only)
+var vsForceHashEnd byte
 
 func genHonest(r *Rng) (*vsCase, []*vsSpend) {
 	c := &vsCase{ver: r.Pick(0, 2)}
@@ -1560,6 +1614,7 @@ func init() {
 	gens["vshapes"] = genVsShapes
 	gens["vmulti"] = genVsMulti
 	gens["vfinal"] = genVsFinal
+	gens["vhashend"] = genVsHashEnd
 	gens["vreenc"] = genVsReenc
 	gens["disasm"] = genDisasmCases
 	runs["disasm"] = runDisasm
